@@ -132,6 +132,17 @@ func init() {
 			if len(e.Unsigned()) > 0 {
 				out = append(out, B("\nLEAK unsigned")...)
 			}
+			// every accessor agrees with a PDU parsed afresh from the event's own JSON()
+			if fresh, err := verImpl.NewEventFromTrustedJSON(e.JSON(), true); err != nil {
+				out = append(out, B("\nLEAK own-json-unparsable")...)
+			} else {
+				a, b := c05AllAccessors(e), c05AllAccessors(fresh)
+				for _, k := range c05AccessorNames {
+					if a[k] != b[k] {
+						out = append(out, B(fmt.Sprintf("\nLEAK stale-accessor %s: %s, from own JSON: %s", k, a[k], b[k]))...)
+					}
+				}
+			}
 		}
 		id := "diff"
 		if e.EventID() == orig.EventID() {
